@@ -48,6 +48,10 @@ def make_record(c):
     return x * c["scale"] + c["offset"] * c["scale"]
 
 
+def rng_of(v):
+    return float(np.max(v) - np.min(v)) or 1.0
+
+
 def e_adc(c):
     reset()
     x = make_record(c)
@@ -70,36 +74,57 @@ def e_adc(c):
         g.add("x", arg)
     n = 8 if c["default_n"] else c["n"]
     kw = {} if c["default_n"] else {"n": n}
-    lo, hi = [float(v) for v in np.asarray(lib(U.shortest_int, total, 99.99)).ravel()]
-    if not hi > lo:
+    state = {}
+
+    def quantiser_ok(arg, total, what):
+        lo, hi = [float(v) for v in np.asarray(lib(U.shortest_int, total, 99.99)).ravel()]
+        if not hi > lo:
+            return None
+        y = lib(D.ADC, arg, otype=c["otype"], **kw)
+        contract(y, "E", 1, N, "ADC output")
+        v = y.signal
+        check(np.all(np.isfinite(v)), "adc-non-finite", what)
+        step = (hi - lo) / (2 ** n - 1)
+        rng = hi - lo
+        inside = (total >= lo) & (total <= hi)
+        if c["otype"] == "n":
+            check(bool(np.all(v == np.round(v))), "adc-code-not-integer", what)
+            check(bool(v.min() >= 0 and v.max() <= 2 ** n - 1), "adc-code-out-of-range", f"{what}n={n}: codes in [{v.min()}, {v.max()}], {len(np.unique(v))} distinct values")
+            check(len(np.unique(v)) <= 2 ** n, "adc-too-many-levels", f"{what}{len(np.unique(v))} > 2^{n}")
+            rec = v * step + lo
+            check(bool(np.all(v[total > hi] == 2 ** n - 1)) and bool(np.all(v[total < lo] == 0)), "adc-no-saturation", what)
+        else:
+            check(bool(v.min() >= lo - 1e-12 * rng and v.max() <= hi + 1e-12 * rng), "adc-level-out-of-range",
+                  f"{what}n={n}: levels in [{v.min()}, {v.max()}] vs range [{lo}, {hi}]")
+            check(len(np.unique(np.round((v - lo) / step))) <= 2 ** n, "adc-too-many-levels", f"{what}{len(np.unique(np.round((v - lo) / step)))} > 2^{n}")
+            rec = v
+            check(bool(np.all(np.abs(v[total > hi] - hi) <= 1e-9 * rng)) and bool(np.all(np.abs(v[total < lo] - lo) <= 1e-9 * rng)), "adc-no-saturation", what)
+        err = np.abs(rec[inside] - total[inside])
+        check(err.size == 0 or float(err.max()) <= step / 2 * (1 + 1e-9) + 1e-12 * rng, "adc-error>half-step",
+              f"{what}max error {err.max() if err.size else 0:.3e} step/2 {step / 2:.3e}")
+        state["y"], state["inside"] = y, inside
+        return y
+
+    y = quantiser_ok(arg, total, "")
+    if y is None:
         return {"nontrivial": False, "classes": ["degenerate-range"]}
-    y = lib(D.ADC, arg, otype=c["otype"], **kw)
-    contract(y, "E", 1, N, "ADC output")
-    v = y.signal
-    check(np.all(np.isfinite(v)), "adc-non-finite", "")
-    step = (hi - lo) / (2 ** n - 1)
-    rng = hi - lo
-    inside = (total >= lo) & (total <= hi)
-    if c["otype"] == "n":
-        check(bool(np.all(v == np.round(v))), "adc-code-not-integer", "")
-        check(bool(v.min() >= 0 and v.max() <= 2 ** n - 1), "adc-code-out-of-range", f"n={n}: codes in [{v.min()}, {v.max()}], {len(np.unique(v))} distinct values")
-        check(len(np.unique(v)) <= 2 ** n, "adc-too-many-levels", f"{len(np.unique(v))} > 2^{n}")
-        rec = v * step + lo
-        check(bool(np.all(v[total > hi] == 2 ** n - 1)) and bool(np.all(v[total < lo] == 0)), "adc-no-saturation", "")
-    else:
-        check(bool(v.min() >= lo - 1e-12 * rng and v.max() <= hi + 1e-12 * rng), "adc-level-out-of-range",
-              f"n={n}: levels in [{v.min()}, {v.max()}] vs range [{lo}, {hi}]")
-        check(len(np.unique(np.round((v - lo) / step))) <= 2 ** n, "adc-too-many-levels", f"{len(np.unique(np.round((v - lo) / step)))} > 2^{n}")
-        rec = v
-        check(bool(np.all(np.abs(v[total > hi] - hi) <= 1e-9 * rng)) and bool(np.all(np.abs(v[total < lo] - lo) <= 1e-9 * rng)), "adc-no-saturation", "")
-    err = np.abs(rec[inside] - total[inside])
-    check(err.size == 0 or float(err.max()) <= step / 2 * (1 + 1e-9) + 1e-12 * rng, "adc-error>half-step", f"max error {err.max() if err.size else 0:.3e} step/2 {step / 2:.3e}")
+    inside = state["inside"]
     g.verify()
     g.no_alias([("ADC.signal", y.signal)])
     g.release()
+    # the same buffer refilled in place with another capture (a different range): the conversion follows the data now in the buffer
+    refill = "-"
+    if c["form"] in ("array", "intarray", "es"):
+        buf = arg.signal if isinstance(arg, electrical_signal) else arg
+        new = (total[::-1] * 3.7 + 11.0 * rng_of(total))
+        if buf.dtype.kind == "i":
+            new = np.rint(new)
+        buf[...] = new.astype(buf.dtype)
+        if quantiser_ok(arg, buf.astype(float), "after the input buffer was refilled in place: ") is not None:
+            refill = "buffer-refilled"
     raises(ValueError, D.ADC, arg, None, n, "x", tag="adc-bad-otype-accepted")
     nout = int((~inside).sum())
-    return {"nontrivial": nout >= 1, "classes": [c["dist"], c["otype"], c["form"], "N>=10001" if N >= 10001 else "N<10001", "saturating" if nout else "no-outliers", f"n{n}"]}
+    return {"nontrivial": nout >= 1, "classes": [c["dist"], c["otype"], c["form"], "N>=10001" if N >= 10001 else "N<10001", "saturating" if nout else "no-outliers", f"n{n}", refill]}
 
 
 @st.composite
